@@ -86,30 +86,29 @@ def floatLeaf := "typing.restricted_number_type.validation_fn[float]"
 def integralGuard := "passed: int == int and isinstance(v, float) and (not float.is_integer(v))"
 
 def excuses : List Excuse :=
-  [ -- int(v) of a float raises OverflowError only for ±inf; `float.is_integer(inf)` is False: rejected as ValueError BEFORE the conversion
-    ⟨intLeaf, .OverflowError, "int(v)", .guard integralGuard⟩,
-    -- TypeCore.__new__ converts once more after validation_fn returned: the value is integral and finite there
-    ⟨"typing.extend_base_type.TypeCore.__new__[int]", .OverflowError, "int(v)", .assumed "cls._validation_fn(cls, v) returned: v passed the guards of validation_fn[int] (leaf above)"⟩,
-    -- float(<int beyond the float range>): open
-    ⟨floatLeaf, .OverflowError, "float(v)", .openFinding "C03-registered-int-to-float-overflow"⟩,
-    ⟨"typing.extend_base_type.TypeCore.__new__[float]", .OverflowError, "float(v)", .openFinding "C03-registered-int-to-float-overflow"⟩,
-    ⟨"registered:complex", .OverflowError, "complex(value)", .openFinding "C03-registered-int-to-float-overflow"⟩,
-    ⟨"typing.timedelta_deserializer", .OverflowError, "timedelta(**kwargs)", .openFinding "C03-timedelta-overflow"⟩,
-    ⟨"registered:decimal.Decimal", .ArithmeticError, "decimal.Decimal(value)", .openFinding "C03-decimal-invalid-operation"⟩,
-    -- json.loads: over-long integer literal
-    ⟨"_loaders_dumpers.json_load", .ValueError, "json.loads(value)", .openFinding "C03-huge-int"⟩,
-    -- str() of an int beyond the digit limit inside the f-string of the error message (part of the same finding)
+  [ -- TypeCore.__new__ converts once more after validation_fn returned: the same conversion succeeded there (validation_fn turns an
+    -- OverflowError of it into ValueError since 4c191c6)
+    ⟨"typing.extend_base_type.TypeCore.__new__[int]", .OverflowError, "int(v)", .assumed "cls._validation_fn(cls, v) returned: int(v) succeeded in validation_fn[int] (leaf above)"⟩,
+    ⟨"typing.extend_base_type.TypeCore.__new__[float]", .OverflowError, "float(v)", .assumed "cls._validation_fn(cls, v) returned: float(v) succeeded in validation_fn[float] (leaf above)"⟩,
+    -- json_load (79b7a6a): the handler re-raises only what is a JSONDecodeError, everything else leaves as JSONDecodeError
+    ⟨"_loaders_dumpers.json_load", .ValueError, "json.loads(value)", .guard "in: isinstance(ex, json.JSONDecodeError)"⟩,
+    -- str() of an int beyond the digit limit inside the f-string of the error message (what is left of the finding)
     ⟨"_actions.ActionYesNo._boolean_type", .ValueError, "f-string {x}", .openFinding "C03-huge-int"⟩,
-    -- nesting depth is bounded in the property's input space
-    ⟨"_loaders_dumpers.json_load", .RecursionError, "json.loads(value)", .assumed "container nesting depth <= 40"⟩,
-    ⟨"_loaders_dumpers.toml_load", .RecursionError, "toml_loads(value)", .assumed "container nesting depth <= 40"⟩,
-    ⟨"_loaders_dumpers.toml_load", .ImportError, "import_toml_loads('toml_load')", .assumed "toml mode is only selectable when the toml package imports"⟩,
+    -- tomllib: int() of an over-long integer literal
     ⟨"_loaders_dumpers.toml_load", .ValueError, "toml_loads(value)", .openFinding "C03-huge-int"⟩,
-    ⟨"_loaders_dumpers.yaml_load", .RecursionError, "yaml.load(stream, Loader=get_yaml_default_loader())", .assumed "container nesting depth <= 40"⟩,
+    -- nesting depth is bounded in the property's input space
+    ⟨"_loaders_dumpers.json_load", .RecursionError, "json.loads(value)", .assumed "container nesting depth <= 60"⟩,
+    ⟨"_loaders_dumpers.toml_load", .RecursionError, "toml_loads(value)", .assumed "container nesting depth <= 60"⟩,
+    ⟨"_loaders_dumpers.toml_load", .ImportError, "import_toml_loads('toml_load')", .assumed "toml mode is only selectable when the toml package imports"⟩,
+    ⟨"_loaders_dumpers.yaml_load", .RecursionError, "yaml.load(stream, Loader=get_yaml_default_loader())", .assumed "container nesting depth <= 60"⟩,
     -- next(iter(value.keys())) of a non-empty dict
     ⟨"_loaders_dumpers.yaml_load", .StopIteration, "next(iter(value.keys()))",
       .guard "in: isinstance(value, dict) and value and all((v is None for v in value.values()))"⟩
   ]
+
+/-- the excuses of the tree before the repairs 79b7a6a, 4c191c6, 9c44438 (regression witnesses in Props/C03) -/
+def excusesBefore : List Excuse :=
+  [ ⟨intLeaf, .OverflowError, "int(v)", .guard integralGuard⟩ ]
 
 /-! ### from `covered` to the hypothesis of the routing theorem -/
 
